@@ -11,6 +11,14 @@ import numpy as np
 from harness import jsonify
 
 
+# Time limits of the "for every value passed" sweeps (C11): primes and powers of two in the quick tier (fraction- or
+# reciprocal-based arithmetic goes wrong there first), every value up to 130 in the thorough tier.
+T_SWEEP_QUICK = (5, 11, 23, 41, 64, 97, 128)
+T_SWEEP_THOROUGH = tuple(range(4, 131))
+T_SWEEP_QUICK_FEW = (11, 41, 97)                      # for the environments that are dearer to compile
+T_SWEEP_THOROUGH_FEW = tuple(range(5, 131, 4))
+
+
 class EnvAdapter:
     name = "?"            # TLA+ module name: spec/env/<name>.tla, spec/trace/Trace_<name>.tla
     # property ids whose clause groups exist in Trace_<name>.tla
